@@ -55,6 +55,35 @@ pub(crate) use substream::Substream;
 
 mod connection;
 mod listener;
+
+/// Verification hooks: the QUIC address parser and values of every [`crate::error::QuicError`]
+/// variant for an external harness (the payload types belong to `quinn`). Adds code only; absent
+/// without the `verif` feature.
+#[cfg(feature = "verif")]
+pub mod verif {
+    pub use super::listener::QuicListener;
+    use crate::error::QuicError;
+
+    /// A value of the variant at position `index` of [`QuicError`]; `salt` varies the payload.
+    pub fn quic_error(index: usize, salt: usize) -> Option<QuicError> {
+        Some(match index {
+            0 => QuicError::InvalidCertificate,
+            1 => QuicError::ConnectionError(match salt % 4 {
+                0 => quinn::ConnectionError::TimedOut,
+                1 => quinn::ConnectionError::LocallyClosed,
+                2 => quinn::ConnectionError::Reset,
+                _ => quinn::ConnectionError::VersionMismatch,
+            }),
+            2 => QuicError::ConnectError(match salt % 4 {
+                0 => quinn::ConnectError::EndpointStopping,
+                1 => quinn::ConnectError::TooManyConnections,
+                2 => quinn::ConnectError::NoDefaultClientConfig,
+                _ => quinn::ConnectError::InvalidDnsName("verif".to_string()),
+            }),
+            _ => return None,
+        })
+    }
+}
 mod substream;
 
 /// Verification hooks: the connection event loop over a loopback pair (see the file). Adds code only.
